@@ -98,6 +98,7 @@ def main():
             m = {"id": sid, "property": prop,
                  "what_changed": meta.get("what_changed"), "needs_to_manifest": meta.get("needs_to_manifest"),
                  "files_changed": meta.get("files_changed"), "worktree": str(wt),
+                 "repo_commit": sh(["git", "-C", "/repo", "log", "--format=%h", "-1"]).stdout.strip(),
                  "demo": f"written for worktree {wt}; tools/seed_verify.py rewrites that path to its scratch copy",
                  "confirmed_by": "tools/seed_verify.py: demo exit 0 on the unchanged copy, non-zero on the patched copy; 44 baseline tests pass with the patch",
                  "checks_run": results}
